@@ -17,7 +17,7 @@ REPO = os.environ.get('VERIF_REPO', '/repo')
 TARGET = os.path.join(VERIF, 'build', 'witness-target')
 
 BOUNDS = {  # property -> (quick max, thorough max, description of the enumerated scope)
-    'C01': (2, 3, 'all registration histories of length <= max (<= 3) over a pool of 17 types (recursive, mutually recursive, aliases, phantom, skipped parameter, bit sequence) in 3 API modes; retain on all registries of <= min(max,2) entries; builder scripts'),
+    'C01': (2, 3, 'all registration histories of length <= max (<= 3) over a pool of 24 types (recursive, mutually recursive, aliases, phantom, skipped parameter, bit sequence) in 3 API modes; retain on all registries of <= min(max,2) entries; builder scripts'),
     'C02': (2, 3, 'all registration histories of length <= max over the pool of 17 types in 3 API modes; image checked structurally against type_info()'),
     'C05': (2, 3, 'all registration histories of length <= max over the pool of 17 types (incl. nested aliases) in 3 API modes; evaluation counters'),
     'C06': (2, 2, 'about 80 portable types (every definition kind, ids across all compact size classes, unicode / empty strings) and 2-entry registries'),
